@@ -144,8 +144,20 @@ class Text(JupyterMixin):
         self.no_wrap = no_wrap
         self.end = end
         self.tab_size = tab_size
-        self._spans: List[Span] = list(spans) if spans else []
         self._length: int = len(sanitized_text)
+        # spans are clipped to the text: what reaches beyond its end styles nothing now, and must not
+        # style characters that are added later either
+        length = self._length
+        self._spans: List[Span] = (
+            [
+                span
+                if span.end <= length
+                else Span(min(span.start, length), length, span.style)
+                for span in spans
+            ]
+            if spans
+            else []
+        )
 
     def __len__(self) -> int:
         return self._length
